@@ -45,13 +45,13 @@ def _instantiate(pkg):
 class P(vlib.Prop):
     pid = "C14"
     coq_dirs = ["Common", "C14"]
-    coq_targets = ["C14/Properties.vo", "C14/Witness.vo", "C14/Harness.vo"]
+    coq_targets = ["C14/Properties.vo", "C14/Witness.vo", "C14/Harness.vo", "C14/Clauses.vo", "C14/Repaired.vo"]
     properties_module = "C14.Properties"
     properties_file = "C14/Properties.v"
     instance_obligations = []   # the instance obligations are theorems of Properties.v (counted there)
     harness_module = "C14.Harness"
     case_type = "vcase"
-    shard = 12
+    shard = 24
     harnesses = [
         vlib.Harness("opaque", "config/configopaque", ".",
                      {"zz_verif_c14_test.go": "C14/opaque_test.go",
@@ -109,6 +109,113 @@ class P(vlib.Prop):
     def translate(self, ctx):
         vlib.go2coq(ctx, "config/configopaque", os.path.join(HERE, "t1_spec.json"), "C14Opaque")
         vlib.go2coq(ctx, "config/configtls", os.path.join(HERE, "t1_tls_spec.json"), "C14Tls")
+
+    CLAUSES = {1: "clause-never-revealed", 2: "clause-unmarshal-stores-unchanged", 3: "clause-use-yields-secret",
+               4: "clause-consumer-gives-back-no-secret", 5: "clause-renders-the-marker"}
+
+    def extra_checks(self, ctx):
+        """(1) the decidable clause checker Clauses.prop_code (proved sound: clause_checker_sound) over EVERY recorded
+        case of the implementation — an oracle that does not use the model's rendering functions; a non-zero code is a
+        failing input of the named clause.  (2) when a proof obligation broke: where do the definitions regenerated by
+        T1 differ from the hand-written ones (finite domains enumerated inside Coq)."""
+        import concurrent.futures
+        terms = [c["term"] for c in ctx.cases]
+        coq = vlib.COQ
+        if terms:
+            try:
+                vlib.coq_make(ctx, ["C14/Clauses.vo"])   # incremental; also after a broken proof (depends on Harness.v only)
+            except vlib.Broken as b:
+                ctx.notes.append("clause checker not available: " + b.what)
+                terms = []
+        nsh = (len(terms) + self.shard - 1) // self.shard if terms else 0
+
+        def one(k):
+            if not os.path.exists(os.path.join(ctx.work, "Cases_%d.vo" % k)):
+                return k, 2, "no compiled cases file"
+            vf = os.path.join(ctx.work, "Clause_%d.v" % k)
+            with open(vf, "w") as f:
+                f.write("From Verif Require Import Common.Base C14.Harness C14.Clauses.\nRequire Import Cases_%d.\n" % k)
+                f.write("Definition R := Eval vm_compute in filter (fun x => negb (Nat.eqb (snd x) 0)) "
+                        "(map (fun x => (fst x, prop_code (snd x))) cases).\n")
+                f.write('Goal True. idtac "@@BEGIN". Abort.\nPrint R.\nGoal True. idtac "@@END". Abort.\n')
+            rc, out = vlib.run(["coqc", "-Q", coq, "Verif", "-Q", ctx.work, "", "-w", "-all",
+                                "-o", os.path.join(ctx.work, "Clause_%d.vo" % k), vf], cwd=ctx.work, timeout=900)
+            return k, rc, out
+
+        t0 = __import__("time").time()
+        bad = []
+        evaluated = 0
+        if nsh and not any("do not evaluate in Coq" in w for w, _ in ctx.broken):
+            with concurrent.futures.ThreadPoolExecutor(max_workers=vlib.NPROC) as ex:
+                for k, rc, out in ex.map(one, range(nsh)):
+                    m = re.search(r"@@BEGIN\s*(.*?)@@END", out, re.S)
+                    if rc != 0 or not m:
+                        ctx.notes.append("clause checker: shard %d not evaluated (%s)" % (k, out[-200:].replace("\n", " ")))
+                        continue
+                    evaluated += 1
+                    body = m.group(1).split(": list")[0]
+                    bad += [(int(a), int(b)) for a, b in re.findall(r"\((\d+),\s*(\d+)\)", body)]
+        ctx.extra_coverage["clause_checker"] = {
+            "function": "Clauses.prop_code (sound: Properties.clause_checker_sound)", "shards_evaluated": evaluated,
+            "cases": len(terms) if evaluated else 0, "cases_violating_a_clause": len(bad),
+            "wall_s": round(__import__("time").time() - t0, 2)}
+        # the guard of the link theorem model_renderings_pass_the_checker on the recorded rendering cases: the secret is
+        # not, by coincidence, part of the secret-independent text (else a clause-1 report could be a false alarm)
+        if evaluated and not ctx.broken and ctx.tier == "thorough":   # (re-renders every case in the model: thorough tier only)
+            def guard(k):
+                vf = os.path.join(ctx.work, "Guard_%d.v" % k)
+                with open(vf, "w") as f:
+                    f.write("From Verif Require Import Common.Base C14.Harness C14.Link.\nRequire Import Cases_%d.\n" % k)
+                    f.write("Definition R := Eval vm_compute in map fst (filter (fun x => negb (frame_guard (snd x))) cases).\n")
+                    f.write('Goal True. idtac "@@BEGIN". Abort.\nPrint R.\nGoal True. idtac "@@END". Abort.\n')
+                rc, out = vlib.run(["coqc", "-Q", coq, "Verif", "-Q", ctx.work, "", "-w", "-all",
+                                    "-o", os.path.join(ctx.work, "Guard_%d.vo" % k), vf], cwd=ctx.work, timeout=900)
+                m = re.search(r"@@BEGIN\s*(.*?)@@END", out, re.S)
+                if rc != 0 or not m:
+                    return None
+                return [int(x) for x in re.findall(r"\d+", m.group(1).split("=", 1)[-1].split(": list")[0])]
+            with concurrent.futures.ThreadPoolExecutor(max_workers=vlib.NPROC) as ex:
+                res = list(ex.map(guard, range(nsh)))
+            ctx.extra_coverage["clause_checker"]["link_guard"] = {
+                "theorem": "Properties.model_renderings_pass_the_checker", "shards_evaluated": sum(1 for r in res if r is not None),
+                "rendering_cases_outside_the_guard": sum(len(r) for r in res if r)}
+        seen = {}
+        for idx, code in sorted(bad):
+            kind = self.CLAUSES.get(code, "clause-%d" % code)
+            if seen.get(kind, 0) >= 3 or idx >= len(terms):
+                continue
+            seen[kind] = seen.get(kind, 0) + 1
+            dis = any(mm["term"] == terms[idx] for mm in ctx.mismatches)
+            ctx.oracle.append({"kind": kind, "term": terms[idx], "harness": ctx.cases[idx]["harness"],
+                               "detail": "the recorded behaviour of the implementation violates this clause of the property "
+                                         "(decidable checker Clauses.prop_code = %d, sound by clause_checker_sound)%s; cause=unexplained"
+                                         % (code, "; the model also disagrees on this case" if dis else "")})
+        # (2) translated definitions vs hand-written ones
+        if any("coq proof obligation" in w or "translator" in w for w, _ in ctx.broken):
+            expr = ("(filter (fun n => negb (Bool.eqb (tls_hasCertPem (Z.of_nat n)) (negb (Nat.eqb n 0)))) (seq 0 70), "
+                    "filter (fun n => negb (Bool.eqb (tls_hasKeyPem (Z.of_nat n)) (negb (Nat.eqb n 0)))) (seq 0 70), "
+                    "filter (fun n => negb (Bool.eqb (tls_hasCAPem (Z.of_nat n)) (negb (Nat.eqb n 0)))) (seq 0 70), "
+                    "filter (fun ab => negb (Bool.eqb (tls_hasCert (fst ab) (snd ab)) (fst ab || snd ab) && "
+                    "Bool.eqb (tls_hasKey (fst ab) (snd ab)) (fst ab || snd ab) && Bool.eqb (tls_hasCA (fst ab) (snd ab)) (fst ab || snd ab))) "
+                    "[(false,false);(false,true);(true,false);(true,true)], "
+                    "(opaque_String_mentions_receiver, opaque_GoString_mentions_receiver, opaque_MarshalText_mentions_receiver, "
+                    "opaque_MarshalBinary_mentions_receiver), opaque_methods)")
+            vf = os.path.join(ctx.work, "Diff_generated.v")
+            open(vf, "w").write("From Verif Require Import Common.Base Generated.C14Tls Generated.C14Opaque.\nFrom Coq Require Import String.\n"
+                                "Definition R := Eval vm_compute in %s.\nGoal True. idtac \"@@BEGIN\". Abort.\nPrint R.\n"
+                                "Goal True. idtac \"@@END\". Abort.\n" % expr)
+            rc, out = vlib.run(["coqc", "-Q", coq, "Verif", "-w", "-all", "-o", vf + "o", vf], cwd=ctx.work, timeout=300)
+            m = re.search(r"@@BEGIN\s*(.*?)@@END", out, re.S)
+            res = " ".join(m.group(1).split()) if (rc == 0 and m) else "<not evaluable: %s>" % out[-300:].replace("\n", " ")
+            onebyte = [t for t in terms if re.match(r"CTls \d 3 |CTls \d \d \d 3 ", t)]
+            dis = [t for t in onebyte if any(mm["term"] == t for mm in ctx.mismatches)]
+            ctx.broken.append((
+                "generated vs hand-written definitions on their enumerated domains: (PEM lengths 0..69 where hasCertPem / hasKeyPem / "
+                "hasCAPem differ from `length <> 0`, boolean pairs where hasCert/hasKey/hasCA differ from `||`, the four "
+                "mentions-receiver flags, the method set) = " + res,
+                "implementation runs that use a PEM of length 1 (the smallest non-empty argument): %d CTls cases, %d of them "
+                "disagree with the model; a clause of the property is violated on %d recorded case(s)"
+                % (len(onebyte), len(dis), len(bad))))
 
     def match_known(self, finding, failure):
         sig = finding.get("signature", {})
